@@ -165,6 +165,9 @@ impl RedbStore {
 
         spawn_blocking(move || {
             let _guard = guard;
+            // Locals are dropped in reverse order: `inner` (and with it the database
+            // handle) must be released before `_guard` tells `close` that we are done.
+            let inner = inner;
 
             {
                 let mut tx = inner.db.begin_read()?;
@@ -187,6 +190,9 @@ impl RedbStore {
 
         spawn_blocking(move || {
             let _guard = guard;
+            // Locals are dropped in reverse order: `inner` (and with it the database
+            // handle) must be released before `_guard` tells `close` that we are done.
+            let inner = inner;
 
             {
                 let mut tx = inner.db.begin_write()?;
